@@ -68,6 +68,11 @@ def handle (feats : Features) (t : List String) : Option String :=
     else none
   | _ => none
 
+/-- documented (lexical-util/src/api.rs, "Panics": mantissa radix ≠ exponent base only for five pairs) -/
+def mixedRadixDocumented (feats : Features) (u : Unpacked) : Bool :=
+  !feats.powerOfTwo || u.mantissaRadix == u.exponentBase ||
+    (u.mantissaRadix, u.exponentBase) ∈ [(4, 2), (8, 2), (16, 2), (32, 2), (16, 4)]
+
 /-- specification column for the same ops: what the property demands -/
 def spec (feats : Features) (t : List String) : Option String :=
   match t with
@@ -84,6 +89,7 @@ def spec (feats : Features) (t : List String) : Option String :=
     else if ¬ ValidAscii dp.toNat! then some "opterr InvalidDecimalPoint -"
     else if e ≠ "Success" then some s!"err {e} -"
     else if ¬ OptionsPunctuationValid feats u exp.toNat! dp.toNat! then some "err InvalidPunctuation -"
+    else if !mixedRadixDocumented feats u then some "err InvalidRadix -"
     else none
   -- writers return a slice, not a `Result`: the documented reaction to an invalid format is a panic
   | ["wi", _ty, h, _v, _buf] =>
@@ -91,7 +97,8 @@ def spec (feats : Features) (t : List String) : Option String :=
   | "wf" :: _ty :: h :: _bits :: _max :: _min :: _pos :: _neg :: _round :: _trim :: exp :: dp :: _ =>
     if ¬ ValidAscii exp.toNat! then some "opterr InvalidExponentSymbol -"
     else if ¬ ValidAscii dp.toNat! then some "opterr InvalidDecimalPoint -"
-    else if firstViolated feats (unpack (fmtOf h)) ≠ "Success" then some "panic" else none
+    else if firstViolated feats (unpack (fmtOf h)) ≠ "Success" then some "panic"
+    else if !mixedRadixDocumented feats (unpack (fmtOf h)) then some "panic" else none
   | _ => none
 
 end LexVerif.Model.Ops.FormatError
